@@ -109,6 +109,10 @@ SELECTED += [
     ("_generic_abi", "packaging.tags", "_generic_abi"),
     ("generic_tags", "packaging.tags", "generic_tags"),
     ("sys_tags", "packaging.tags", "sys_tags"),
+    ("_mac_arch", "packaging.tags", "_mac_arch"),
+    ("_mac_binary_formats", "packaging.tags", "_mac_binary_formats"),
+    ("_parse_glibc_version", "packaging._manylinux", "_parse_glibc_version"),
+    ("_glibc_version_string", "packaging._manylinux", "_glibc_version_string"),
 ]
 
 # classes whose instances the translated code handles as records `PyVal.obj <class name> <fields>`; attribute access on
@@ -233,6 +237,9 @@ FULL_LOWER_MODULES = {"packaging.utils"}
 # compiled patterns whose *structure* harness/translators/names.py measures into Gen.NameTables:
 # (module, global name) -> (kind, structure flag, Lean arguments)
 EXTERNAL_READS |= {"sys.implementation.name"}
+DROPPED_CALLS |= {"warnings.warn"}                 # no effect on the result (arguments are still evaluated)
+# library functions that are probes of the world outside: calls become reads of the environment table
+EXTERNAL_CALLS |= {"_glibc_version_string_confstr", "_glibc_version_string_ctypes"}
 MEASURED_PATTERNS = {
     ("packaging.utils", "_canonicalize_regex"): ("class_plus", "Gen.NameTables.canonStructureOk", "Gen.NameTables.separators"),
     ("packaging.utils", "_build_tag_regex"): ("two_runs", "Gen.NameTables.buildStructureOk",
@@ -983,6 +990,10 @@ class Fn:
             return
         if isinstance(e, ast.Call) and ".".join(_dotted(e.func) or []) in DROPPED_CALLS:
             for a in e.args:                     # the arguments are still evaluated (they could raise)
+                if isinstance(a, ast.Name) and a.id not in self.locals and a.id not in self.globals:      # x2: a builtin class
+                    import builtins
+                    if inspect.isclass(getattr(builtins, a.id, None)):
+                        continue
                 p, c = self.expr(a)
                 if not p:
                     self.emit(ind, f"let _ ← {c}")
@@ -1048,6 +1059,7 @@ class Fn:
         return f"PyRt.truthy {self.val(e)}"
 
     def _in(self, l, r, negate):
+        r = _set_display_as_tuple(r)
         lv = self.val(l)          # Python evaluates the left operand first
         rv = self.val(r)
         t = f"(← PyRt.contains {rv} {lv})"
@@ -1265,6 +1277,7 @@ class Fn:
             if isinstance(op, ast.NotEq):
                 return True, f"(PyRt.ne {self.val(l)} {self.val(r)})"
             if isinstance(op, (ast.In, ast.NotIn)):
+                r = _set_display_as_tuple(r)
                 lv = self.val(l)
                 rv = self.val(r)
                 return False, f"PyRt.{'in_' if isinstance(op, ast.In) else 'not_in'} {lv} {rv}"
@@ -1588,6 +1601,10 @@ class Fn:
                 if modname == "re" and path == "match" and len(e.args) == 2 and not kws \
                         and isinstance(e.args[0], ast.Constant) and isinstance(e.args[0].value, str):
                     pat = e.args[0].value
+                    seq = _seq_pattern(pat) if pat not in SUPPORTED_PATTERNS else None        # --- x2
+                    if seq is not None:
+                        self.ctx.imports.add("PkgModel.PyRx")
+                        return False, f"PyRx.match_seq {seq[0]} {self.val(e.args[1])}"
                     if pat not in SUPPORTED_PATTERNS:
                         raise Unsupported(f"regular expression {pat!r} has no matcher in the run-time")
                     lit = pat.replace("\\", "\\\\").replace('"', '\\"')
@@ -1617,6 +1634,10 @@ class Fn:
             if f.attr == "split" and len(e.args) == 2 and not kws:
                 recv = self.val(f.value)
                 return False, f"PyRt.str_split_max {recv} {self.val(e.args[0])} {self.val(e.args[1])}"
+            if f.attr == "group" and len(e.args) == 1 and not kws and isinstance(e.args[0], ast.Constant) \
+                    and isinstance(e.args[0].value, str) and isinstance(f.value, ast.Name):                      # --- x2
+                idx = self.group_index(f.value.id, e.args[0].value)
+                return False, f"PyRt.match_group {self.val(f.value)} (PyVal.int {idx})"
             if f.attr == "lower" and not e.args and not kws and self.pyfunc.__module__ in FULL_LOWER_MODULES:   # --- x2
                 self.ctx.imports.add("PkgModel.PyRx")
                 return False, "PyRx.str_lower_full " + self.val(f.value)
@@ -1671,6 +1692,17 @@ class Fn:
             self.ctx.imports.add("PkgModel.PyRx")
             return False, f"PyRx.sub_class_plus {flag} {targs} {self.val(e.args[0])} {self.val(e.args[1])}"
         return None
+
+    def group_index(self, local, name):
+        """`m.group("<name>")`: the index of the named group, when local `m` is bound once, by `re.match(<literal>, …)`"""
+        binds = [n for n in _walk_scope(self.node.body) if local in _targets_of(n)]
+        if len(binds) == 1 and isinstance(binds[0], (ast.Assign, ast.AnnAssign)):
+            v = binds[0].value
+            if isinstance(v, ast.Call) and _dotted(v.func) == ["re", "match"] and v.args and isinstance(v.args[0], ast.Constant):
+                seq = _seq_pattern(v.args[0].value)
+                if seq is not None and name in seq[1]:
+                    return seq[1][name]
+        raise Unsupported(f"group name {name!r} of a match object whose pattern is not known")
 
     def eqf_of_class(self, c):
         """the equality function sets use for members of tracked class c (its translated `__eq__`), as a Lean term"""
@@ -1904,6 +1936,63 @@ class Fn:
 
 
 _CMP = {ast.Lt: "lt", ast.LtE: "le", ast.Gt: "gt", ast.GtE: "ge"}
+
+
+def _set_display_as_tuple(r):
+    """x2: `x in {c1, c2, …}` for constants is membership in the tuple of the same constants"""
+    if isinstance(r, ast.Set) and all(isinstance(x, ast.Constant) and isinstance(x.value, (str, int)) for x in r.elts):
+        return ast.Tuple(elts=list(r.elts), ctx=ast.Load())
+    return r
+
+
+def _seq_pattern(pat, flags=0):
+    """x2: a literal pattern as a list of `PyRx.SeqItem`s (Lean text) + its group-name index, or None when the pattern is not
+    a sequence of literal characters and `<atom>+` runs whose greedy reading is the only one"""
+    import re
+    from re import _parser as P
+    import translate as T
+    try:
+        tree = P.parse(pat, flags)
+    except Exception:
+        return None
+    cflags = re.compile(pat, flags).flags
+    items = []            # ("lit", cp) | ("run", capture, ranges)
+    for op, av in tree:
+        if op is P.LITERAL:
+            items.append(("lit", av))
+            continue
+        cap = False
+        if op is P.SUBPATTERN:
+            g, add, dele, body = av
+            body = list(body)
+            if add or dele or g is None or len(body) != 1:
+                return None
+            op, av = body[0]
+            cap = True
+        if op is not P.MAX_REPEAT:
+            return None
+        lo, hi, body = av
+        body = list(body)
+        if lo != 1 or hi != P.MAXREPEAT or len(body) != 1 or body[0][0] not in (P.IN, P.LITERAL, P.ANY, P.NOT_LITERAL):
+            return None
+        _, rs = T.sweep(tree.state, cflags, *body[0])
+        items.append(("run", cap, list(rs)))
+    # the greedy reading must be the only one
+    def inside(rs, cp):
+        return any(lo <= cp <= hi for lo, hi in rs)
+    for a, b in zip(items, items[1:]):
+        if a[0] == "run":
+            if b[0] == "lit" and inside(a[2], b[1]):
+                return None
+            if b[0] == "run" and any(inside(a[2], lo) or inside(a[2], hi) or inside(b[2], x) for lo, hi in b[2] for x, _ in a[2]):
+                return None
+    out = []
+    for it in items:
+        if it[0] == "lit":
+            out.append(f"PyRx.SeqItem.lit {it[1]}")
+        else:
+            out.append(f"PyRx.SeqItem.run {'true' if it[1] else 'false'} [" + ", ".join(f"({lo}, {hi})" for lo, hi in it[2]) + "]")
+    return "[" + ", ".join(out) + "]", dict(re.compile(pat, flags).groupindex)
 
 
 def _registered_regex(pat):
